@@ -51,7 +51,9 @@ fn one_word_token(doc: &Document, len: usize) -> bool {
 /// inside a single Word token, or an apostrophe pattern `condense_contractions` does not join
 fn unlexable_shape(w: &[char]) -> bool {
     let apos = w.iter().filter(|c| matches!(**c, '\'' | '’')).count();
-    let odd_char = w.iter().any(|c| !(c.is_alphabetic() || c.is_ascii_digit() || matches!(*c, '\'' | '’')));
+    // a character `lex_word` does not take: not English-lingual (e.g. the modifier letter `ʻ` of `Nukuʻalofa`, a
+    // letter of another script), not an ASCII digit, not an apostrophe
+    let odd_char = w.iter().any(|c| !(crate::tokfmt::is_english_lingual(*c) || c.is_ascii_digit() || matches!(*c, '\'' | '’')));
     let edge_apos = matches!(w.first(), Some('\'' | '’')) || matches!(w.last(), Some('\'' | '’'));
     let digit_lead = w.first().is_some_and(|c| c.is_ascii_digit()) || w.iter().any(|c| c.is_ascii_digit());
     let dotted = w.contains(&'.');
